@@ -147,6 +147,12 @@ def _resolve_module_name(ref: str, module: str | None) -> str | None:
     #   `Outer.Inner` may as well be a class nested in a class of the caller's module.
     module = ref.split(".", maxsplit=1)[0]
     if module != ref and module in sys.modules:
+        # An expression (`typing.Dict[str, Model]`) may use more names than that module
+        #   has. If the caller can see the module, the caller's namespace has them all.
+        if not ref.replace(".", "").isidentifier():
+            caller = inspect.getmodule(frames.getcaller())
+            if getattr(caller, module, None) is sys.modules[module]:
+                return caller.__name__
         return module
     # Harder path, find the actual object in the stack frame, if possible.
     obj = frames.extract(ref)
